@@ -1371,6 +1371,23 @@ fn main() {
             }
             if descended { idx += 1 } else { break }
         }
+        // descend into nested fn items: mod::outer::inner (fn inside fn)
+        let mut nested_store: Vec<Item>;
+        while idx + 1 < segs.len() {
+            let mut found_fn: Option<Vec<Item>> = None;
+            for it in items.iter() {
+                if let Item::Fn(f) = it {
+                    if f.sig.ident == segs[idx] {
+                        let inner: Vec<Item> = f.block.stmts.iter().filter_map(|s| if let Stmt::Item(i) = s { Some(i.clone()) } else { None }).collect();
+                        if !inner.is_empty() { found_fn = Some(inner); }
+                    }
+                }
+            }
+            match found_fn {
+                Some(v) => { nested_store = v; items = Box::leak(Box::new(nested_store)); idx += 1; }
+                None => break,
+            }
+        }
         let rest = &segs[idx..];
         let impl_trait = get_str(spec, "impl_trait");
         if rest.len() == 1 {
@@ -1400,6 +1417,29 @@ fn main() {
                     }
                     other => { let mut o = other.clone(); process_struct_like(&mut o, spec, &cfg, &mut rules, &mut my_errors, &path) }
                 };
+                found = Some(json!({"path": path, "text": text, "fingerprint": fp, "file": fpath, "line_start": ls, "line_end": le, "rules": rules.json()}));
+                break;
+            }
+        } else if rest.len() == 2 && get_str(spec, "impl_mode").as_deref() == Some("trait") {
+            // rest = [Type, Trait]: the whole `impl Trait for Type` block, attributes filtered (R1), log/cfg rules applied
+            for it in items.iter() {
+                let Item::Impl(im) = it else { continue };
+                if type_last_ident(&im.self_ty).as_deref() != Some(rest[0]) { continue; }
+                let trait_name = im.trait_.as_ref().map(|(_, p, _)| p.segments.last().unwrap().ident.to_string());
+                if trait_name.as_deref() != Some(rest[1]) { continue; }
+                let fp = fingerprint(&it.to_token_stream());
+                let (ls, le) = find_line_range(it);
+                let mut im = im.clone();
+                filter_attrs(&mut im.attrs, &cfg, &mut rules);
+                for ii in im.items.iter_mut() {
+                    if let ImplItem::Fn(m) = ii {
+                        filter_attrs(&mut m.attrs, &cfg, &mut rules);
+                        AttrPass { cfg: &cfg, rules: &mut rules }.visit_block_mut(&mut m.block);
+                        LogPass { rules: &mut rules, drop_macros: drop_macros.clone() }.visit_block_mut(&mut m.block);
+                    }
+                }
+                rules.hit("R10.trait_impl_kept");
+                let text = print_tokens(im.to_token_stream());
                 found = Some(json!({"path": path, "text": text, "fingerprint": fp, "file": fpath, "line_start": ls, "line_end": le, "rules": rules.json()}));
                 break;
             }
